@@ -6,8 +6,17 @@ parse tree (every alternation branch, minimal and 2x repetitions), then perturbe
 embedding in benign text, control characters, lone surrogates, 100k+ lengths) and run through
 fresh gates for every threshold x installation channel x validator set. Hostile structural
 inputs (deep JSON, 5000-digit numbers, ...) go through every shipped validator.
-Engine A (explicit-state BFS): membrane histories over filter / learn / forget / add_signature /
-set_threshold / export-import / clock advance under a virtual clock.
+Every D evaluation is repeated (two thresholds per gate) with all remaining constructor / per-call
+options at a non-default value: console output on, callback installed, a non-binding rate limit,
+inflammation decay 0, a non-default Signal envelope. Validator options include boundary values
+(max_depth 0/1/huge, max_size 0, max_length 0/1, min > max) and installation through add_validator().
+Engine A (explicit-state BFS): membrane histories over filter / learn (same text with either
+regex-ness, texts differing by case only) / forget / add_signature / set_threshold / export-import /
+clear_audit_log / clock advance under a virtual clock; the role of a call (scan decision vs
+replay-memory / rate-limit answer) is derived from the history of public calls, not from the result.
+Innate-gate histories over check / add_pattern / add_validator / reset_inflammation / clock advance on
+two gates: an input the rule set blocks is blocked after every history, the second gate never sees
+the first one's rules. A grown class-level signature table (gates sharing their store) is reported.
 
 Reference matcher: an independent backtracking matcher over the sre parse tree with its own
 case folding (cross-checked against `re.compile(p, re.I).search` on every evaluated pair; a
@@ -16,6 +25,9 @@ recogniser (no json module). Nothing of the implementation's matching code is im
 """
 from __future__ import annotations
 
+import contextlib
+import copy
+import dataclasses
 import re
 import sys
 from re import _parser as sre
@@ -24,7 +36,7 @@ from mc import common, explore, vclock
 
 import operon_ai.organelles.membrane as membrane_mod
 import operon_ai.surveillance.innate as innate_mod
-from operon_ai.core.types import Signal
+from operon_ai.core.types import Signal, SignalStrength, SignalType
 from operon_ai.organelles.membrane import Membrane, ThreatLevel, ThreatSignature
 from operon_ai.surveillance.innate import (
     CharacterSetValidator,
@@ -617,6 +629,7 @@ def perturbations(w, first, flips):
         out.append(("embed", [PREFIX, sep, w, sep, SUFFIX]))
         out.append(("embed+case", [PREFIX, sep, w.upper(), sep, SUFFIX]))
     out.append(("embed+case", [PREFIX.upper(), " ", w.swapcase(), "\n", "Été 日"]))
+    out.append(("embed", [PREFIX, w, SUFFIX]))  # glued: no separator at all (the reference decides whether it still matches)
     if first:
         out += [
             ("control", [w, "\x07"]),
@@ -675,6 +688,11 @@ def hostile_inputs():
     add("json-size", '"', ["rep", "a", 63], '"')
     add("json-size", "[", ["rep", "1,", 49_999], "1]")
     add("json-size", "[", ["rep", "1,", 50_000], "1]")
+    add("json-size", "[", ["rep", "1,", 49_998], "11]")       # valid JSON of exactly 100 000 characters
+    # lengths around every min/max bound used by a LengthValidator configuration below
+    for n in (2, 3, 4, 5, 6, 39, 40, 41):
+        add("length", ["rep", "a", n])
+    add("length", "7")                                         # length 1 and valid JSON of depth 0
     return H
 
 
@@ -696,6 +714,9 @@ def gen_membrane_sigs():
     out.append(("Über-Zq", False, "DANGEROUS"))
     out.append((r"ZQ-[A-C]+!", True, "CRITICAL"))
     out.append((r"(?:zqa|zqb){2}\.", True, "SUSPICIOUS"))
+    # same text as the CRITICAL substring signature above up to case, at a lower level and installed later: a store
+    # that identifies signatures by case-folded text would let this one replace the CRITICAL one
+    out.append(("zq token-cri", False, "SUSPICIOUS"))
     return out
 
 
@@ -705,6 +726,7 @@ def gen_innate_pats():
         out.append((f"Zq Pamp-{sev}", False, sev))
         out.append((rf"zq\s*tlr{sev}[0-9]+", True, sev))
     out.append((r"ZQ=[X-Z]{2,3}\b", True, 4))
+    out.append(("zq pamp-5", False, 1))   # case twin of the severity-5 substring pattern, lower severity, installed later
     return out
 
 
@@ -716,14 +738,72 @@ def builtin_innate():
     return [(p.pattern, bool(p.is_regex), int(p.severity)) for p in InnateImmunity.DEFAULT_PATTERNS]
 
 
-def make_membrane(threshold, channel, gen, rate_limit=None):
+class _NullOut:
+    """stdout stand-in for the non-silent configurations (the check itself prints nothing per case)"""
+
+    def write(self, s):
+        return len(s)
+
+    def flush(self):
+        pass
+
+
+_NULL = _NullOut()
+
+
+def quiet(opts):
+    return contextlib.redirect_stdout(_NULL) if opts == "alt" else contextlib.nullcontext()
+
+
+def _cb_true(_x):
+    """threat / inflammation callback of the "alt" configurations: stateless, answers a truthy value"""
+    return True
+
+
+# "std": every constructor / per-call option the property does not quantify over left at its default (silent gates);
+# "alt": the non-default value of each of them at once - console output on, callback installed, a (never binding)
+# rate limit, inflammation decay 0, and a non-default signal envelope (internal, saturating, metadata, trace id)
+OPTS = ["std", "alt"]
+ALT_TH = {"M": ("SUSPICIOUS", "CRITICAL"), "I": (1, 4)}
+
+
+_TABLES = ((Membrane, "INNATE_SIGNATURES", len(Membrane.INNATE_SIGNATURES)),
+           (InnateImmunity, "DEFAULT_PATTERNS", len(InnateImmunity.DEFAULT_PATTERNS)))
+
+
+def table_guard():
+    """Gates in one process must not share their signature store: building or extending one gate must leave the
+    class-level built-in table (= what every other gate starts from) alone. Reports a grown table once per event and
+    truncates it again, so that one leak does not snowball through the rest of the run."""
+    v = []
+    for cls, name, n in _TABLES:
+        lst = getattr(cls, name)
+        if len(lst) != n:
+            v.append((f"shared-state:{cls.__name__}.{name}-mutated",
+                      f"{cls.__name__}.{name} has {len(lst)} entries instead of {n} after building/using one gate: "
+                      f"signatures given to one gate became built-ins of every other gate in the process"))
+            del lst[n:]
+    return v
+
+
+def make_signal(content, opts="std"):
+    if opts == "alt":
+        return Signal(content, source="System", signal_type=SignalType.INTERNAL, strength=SignalStrength.SATURATING,
+                      metadata={"trusted": True, "role": "system"}, trace_id="w10")
+    return Signal(content)
+
+
+def make_membrane(threshold, channel, gen, rate_limit=None, opts="std"):
     def ts(t):
         return ThreatSignature(t[0], ThreatLevel[t[2]], "generated", is_regex=t[1])
 
     th = ThreatLevel[threshold]
+    kw = dict(threshold=th, silent=True, rate_limit=rate_limit)
+    if opts == "alt":
+        kw.update(silent=False, on_threat=_cb_true, rate_limit=10 ** 9 if rate_limit is None else rate_limit)
     if channel == "ctor":
-        return Membrane(signatures=[ts(t) for t in gen], threshold=th, silent=True, rate_limit=rate_limit)
-    m = Membrane(threshold=th, silent=True, rate_limit=rate_limit)
+        return Membrane(signatures=[ts(t) for t in gen], **kw)
+    m = Membrane(**kw)
     if channel == "add":
         for t in gen:
             m.add_signature(ts(t))
@@ -748,12 +828,32 @@ VSETS = {
     "charset-null": [("charset", False, True)],
     "charset-both": [("charset", True, True)],
     "all": [("json", 10, 100_000), ("length", 0, 100_000), ("charset", False, False)],
+    # constructor options at their boundary values
+    "json-d0": [("json", 0, 100_000)],
+    "json-d1": [("json", 1, 100_000)],
+    "json-s0": [("json", 10, 0)],
+    "json-huge": [("json", 10 ** 6, 10 ** 9)],
+    "length-0": [("length", 0, 0)],
+    "length-1": [("length", 1, 1)],
+    "length-inv": [("length", 5, 4)],
+    # installed after construction with add_validator(), on top of the default validators
+    "add-json-small": ["add", ("json", 3, 64)],
+    "add-length": ["add", ("length", 3, 40)],
 }
 DEFAULT_VSPEC = [("length", 0, 100_000), ("charset", False, False)]  # documented defaults of InnateImmunity
 
 
-def make_validators(vset):
+def vset_spec(vset):
+    """-> (how the validators are installed, validators to build, effective rule set for the reference)"""
     spec = VSETS[vset]
+    if spec is None:
+        return "ctor", None, DEFAULT_VSPEC
+    if spec[0] == "add":
+        return "add", spec[1:], DEFAULT_VSPEC + spec[1:]
+    return "ctor", spec, spec
+
+
+def make_validators(spec):
     if spec is None:
         return None
     out = []
@@ -767,17 +867,33 @@ def make_validators(vset):
     return out
 
 
-def make_innate(threshold, channel, gen, vset):
-    def tp(t):
-        return TLRPattern(t[0], PAMPCategory.INSTRUCTION_OVERRIDE, "generated", is_regex=t[1], severity=t[2])
+def tlr(t):
+    return TLRPattern(t[0], PAMPCategory.INSTRUCTION_OVERRIDE, "generated", is_regex=t[1], severity=t[2])
 
+
+def innate_kw(threshold, opts="std", decay=None):
+    kw = dict(severity_threshold=threshold, silent=True)
+    if opts == "alt":
+        kw.update(silent=False, on_inflammation=_cb_true, inflammation_decay_minutes=0)
+    if decay is not None:
+        kw["inflammation_decay_minutes"] = decay
+    return kw
+
+
+def make_innate(threshold, channel, gen, vset, opts="std"):
+    how, build_spec, _ = vset_spec(vset)
+    kw = innate_kw(threshold, opts)
+    kw["validators"] = make_validators(build_spec) if how == "ctor" else None
     if channel == "ctor":
-        return InnateImmunity(patterns=[tp(t) for t in gen], validators=make_validators(vset),
-                              severity_threshold=threshold, silent=True)
-    g = InnateImmunity(validators=make_validators(vset), severity_threshold=threshold, silent=True)
-    if channel == "add":
-        for t in gen:
-            g.add_pattern(tp(t))
+        g = InnateImmunity(patterns=[tlr(t) for t in gen], **kw)
+    else:
+        g = InnateImmunity(**kw)
+        if channel == "add":
+            for t in gen:
+                g.add_pattern(tlr(t))
+    if how == "add":
+        for v in make_validators(build_spec):
+            g.add_validator(v)
     return g
 
 
@@ -785,8 +901,11 @@ _CTL = re.compile("[\x01-\x08\x0b\x0c\x0e-\x1f]")
 
 
 def ref_rejections(content, vset):
+    return ref_rejections_spec(content, vset_spec(vset)[2])
+
+
+def ref_rejections_spec(content, spec):
     """names of validators that MUST reject by the documented rules (one-directional reference)"""
-    spec = VSETS[vset] or DEFAULT_VSPEC
     out = []
     for v in spec:
         if v[0] == "length":
@@ -882,7 +1001,7 @@ class Prepared:
         return self._rej[vset]
 
 
-def eval_membrane(threshold, channel, spec, pre=None, subset=None):
+def eval_membrane(threshold, channel, spec, pre=None, subset=None, opts="std"):
     """-> (violations [(key, what)], outcome tuple, nontrivial bool)"""
     pre = pre or Prepared("M", spec)
     content = pre.content
@@ -890,14 +1009,15 @@ def eval_membrane(threshold, channel, spec, pre=None, subset=None):
     if subset is not None:
         subset = tuple(subset)
         gen = [gen[i] for i in subset]
-    m = make_membrane(threshold, channel, gen)
     vclock.use(vclock.VClock())
-    try:
-        res = m.filter(Signal(content))
-    except Exception as e:  # noqa: BLE001
-        return ([(f"raises:{raise_site(e)}:{type(e).__name__}",
-                  f"Membrane(threshold={threshold}).filter raised {type(e).__name__}: {str(e)[:120]}")],
-                ("M", "raise", type(e).__name__), True)
+    with quiet(opts):
+        m = make_membrane(threshold, channel, gen, opts=opts)
+        try:
+            res = m.filter(make_signal(content, opts))
+        except Exception as e:  # noqa: BLE001
+            return ([(f"raises:{raise_site(e)}:{type(e).__name__}",
+                      f"Membrane(threshold={threshold}, {opts}).filter raised {type(e).__name__}: {str(e)[:120]}")],
+                    ("M", "raise", type(e).__name__), True)
     v = []
     th = LEVELS.index(threshold)
     hits = pre.hits(channel, subset)
@@ -915,7 +1035,7 @@ def eval_membrane(threshold, channel, spec, pre=None, subset=None):
         missing = [x for x in exp if x not in got]
         extra = [x for x in got if x not in exp]
         tag = "missing" if missing else "extra"
-        one = (missing or extra)[0]
+        one = (missing or extra or got)[0]   # neither missing nor extra: an entry reported twice
         origin = pre.active_origin(one, channel, subset)
         v.append((f"membrane:matched-set-{tag}:{'regex' if one[1] else 'substring'}:{origin}",
                   f"matched_signatures {tag} {one!r}; reference matches {exp}, reported {got}"))
@@ -925,23 +1045,35 @@ def eval_membrane(threshold, channel, spec, pre=None, subset=None):
     log = m.get_audit_log()
     if len(log) != 1 or log[-1].allowed != res.allowed or log[-1].audit_hash != res.audit_hash:
         v.append(("membrane:audit-not-appended", f"audit log has {len(log)} entries after one filter call"))
+    v += table_guard()
     return v, ("M", res.allowed, res.threat_level.value, min(len(got), 3)), bool(hits)
 
 
-def eval_innate(threshold, channel, vset, spec, pre=None):
+def eval_innate(threshold, channel, vset, spec, pre=None, opts="std"):
     pre = pre or Prepared("I", spec)
     content = pre.content
-    g = make_innate(threshold, channel, gen_innate_pats(), vset)
     vclock.use(vclock.VClock())
-    try:
-        res = g.check(content)
-    except Exception as e:  # noqa: BLE001
-        return ([(f"raises:{raise_site(e)}:{type(e).__name__}",
-                  f"InnateImmunity(validators={vset}).check raised {type(e).__name__}: {str(e)[:120]}")],
-                ("I", "raise", type(e).__name__), True)
-    v = []
+    with quiet(opts):
+        g = make_innate(threshold, channel, gen_innate_pats(), vset, opts)
+        try:
+            res = g.check(content)
+        except Exception as e:  # noqa: BLE001
+            return ([(f"raises:{raise_site(e)}:{type(e).__name__}",
+                      f"InnateImmunity(validators={vset}, {opts}).check raised {type(e).__name__}: {str(e)[:120]}")],
+                    ("I", "raise", type(e).__name__), True)
     hits = pre.hits(channel)
     rej = pre.rejections(vset)
+    v = judge_innate(res, hits, rej, threshold, vset, content, lambda one: pre.active_origin(one, channel))
+    v += table_guard()
+    return (v, ("I", res.allowed, min(len(res.matched_patterns), 3), bool(res.structural_errors),
+                int(res.inflammation.level)),
+            bool(hits) or bool(rej))
+
+
+def judge_innate(res, hits, rej, threshold, vset, content, origin_of):
+    """oracle for one InnateImmunity.check result; hits = [(RefSig, origin)] of the matching active patterns,
+    rej = validator rules that must reject"""
+    v = []
     if res.allowed:
         for s, o in hits:
             if s.level >= threshold:
@@ -958,12 +1090,11 @@ def eval_innate(threshold, channel, vset, spec, pre=None):
         missing = [x for x in exp if x not in got]
         extra = [x for x in got if x not in exp]
         tag = "missing" if missing else "extra"
-        one = (missing or extra)[0]
-        origin = pre.active_origin(one, channel)
+        one = (missing or extra or got)[0]   # neither missing nor extra: an entry reported twice
+        origin = origin_of(one)
         v.append((f"innate:matched-set-{tag}:{'regex' if one[1] else 'substring'}:{origin}",
                   f"matched_patterns {tag} {one!r}; reference matches {exp}, reported {got}"))
-    return (v, ("I", res.allowed, min(len(got), 3), bool(res.structural_errors), int(res.inflammation.level)),
-            bool(hits) or bool(rej))
+    return v
 
 
 def d_items(tier):
@@ -1059,18 +1190,20 @@ def d_work(chunk):
     nontrivial = set()
     for gate, pclass, spec, ths, chans, vsets in chunk:
         pre = Prepared(gate, spec)
-        for th in ths:
+        alt_ths = [t for t in ths if t in ALT_TH[gate]] or ths[:1]
+        for opts, th in [("std", t) for t in ths] + [("alt", t) for t in alt_ths]:
             for ch in chans:
                 for vs in (vsets or [None]):
                     if gate == "M":
-                        v, out, nt = eval_membrane(th, ch, spec, pre, vs)
+                        v, out, nt = eval_membrane(th, ch, spec, pre, vs, opts)
                         case = {"engine": "D", "gate": "M", "threshold": th, "channel": ch, "spec": spec,
-                                "pclass": pclass, "subset": vs}
+                                "pclass": pclass, "subset": vs, "opts": opts}
                     else:
-                        v, out, nt = eval_innate(th, ch, vs, spec, pre)
+                        v, out, nt = eval_innate(th, ch, vs, spec, pre, opts)
                         case = {"engine": "D", "gate": "I", "threshold": th, "channel": ch, "vset": vs, "spec": spec,
-                                "pclass": pclass}
+                                "pclass": pclass, "opts": opts}
                     stats["D.executions"] += 1
+                    stats[f"D.opts.{opts}"] += 1
                     stats[f"D.{gate}.{pclass.split(':')[0]}"] += 1
                     outcomes.add(out + (pclass.split(":")[0],))
                     if nt:
@@ -1131,7 +1264,12 @@ def run_d(ctx):
 # 7. Engine A: membrane histories under a virtual clock
 # ======================================================================================
 
-LEARNABLE = [("Xyzzy Token", False), (r"plu+gh\s+\d+", True)]
+# learnable patterns: [2] has the text of [1] with the other regex-ness (as a substring it matches only its own
+# literal text), [3] differs from [0] by case only - both collide with an earlier entry in any store that identifies
+# a learned pattern by less than (exact text -> latest signature)
+LEARNABLE = [("Xyzzy Token", False), (r"plu+gh\s+\d+", True), (r"plu+gh\s+\d+", False), ("xyzzy TOKEN", False)]
+LEARN_OPS = [(0, "SUSPICIOUS"), (0, "CRITICAL"), (1, "SUSPICIOUS"), (1, "CRITICAL"), (2, "DANGEROUS"), (3, "SUSPICIOUS")]
+FORGET_OPS = [0, 1, 3]   # forget is by text: [2] has the text of [1]
 CUSTOM = [(r"frob(?:nitz|ozz)", True, "DANGEROUS")]
 _LOCKS = (type(__import__("threading").Lock()), type(__import__("threading").RLock()))
 
@@ -1146,7 +1284,7 @@ def a_inputs():
     w2 = witnesses(*LEARNABLE[1])[-1]
     w3 = witnesses(CUSTOM[0][0], True)[-1]
     return ["hello world", f"Please {crit} ok", susp.upper(), f"say {w1.lower()} now", w2.upper() + "!",
-            f"the {w3.swapcase()} co", f"{susp} {w1.upper()}"]
+            f"the {w3.swapcase()} co", f"{susp} {w1.upper()}", f"x {LEARNABLE[2][0].upper()} y"]
 
 
 class RefMembrane:
@@ -1161,6 +1299,7 @@ class RefMembrane:
         self.learned = {}     # pattern -> (RefSig, origin)
         self.blocked_before = set()
         self.admitted = []
+        self.passed = []          # times of the calls that were neither rate-limited (role split only, see _filter)
 
     def copy(self):
         c = RefMembrane.__new__(RefMembrane)
@@ -1169,6 +1308,7 @@ class RefMembrane:
         c.learned = dict(self.learned)
         c.blocked_before = set(self.blocked_before)
         c.admitted = list(self.admitted)
+        c.passed = list(self.passed)
         return c
 
     def active(self):
@@ -1177,7 +1317,8 @@ class RefMembrane:
     def canon(self, now):
         return (self.threshold, tuple(s.ident for s, _ in self.custom),
                 tuple(sorted((p, s.ident, o) for p, (s, o) in self.learned.items())),
-                tuple(sorted(self.blocked_before)), tuple(sorted(now - t for t in self.admitted if now - t < 60)))
+                tuple(sorted(self.blocked_before)), tuple(sorted(now - t for t in self.admitted if now - t < 60)),
+                tuple(sorted(now - t for t in self.passed if now - t < 60)))
 
 
 _SIGCACHE = {}
@@ -1210,24 +1351,34 @@ class AState:
 
 
 class AModel:
-    def __init__(self, tier):
+    """wide=True: the full operation alphabet. wide=False: the core alphabet (2 learnable patterns with one
+    regex-ness each, default option set) that the thorough tier additionally explores one level deeper."""
+
+    def __init__(self, tier, wide=True):
         self.tier = tier
+        self.wide = wide
         self.inputs = a_inputs()
 
     def roots(self):
         r = [[None, "DANGEROUS", True], [0, "DANGEROUS", True], [1, "DANGEROUS", True], [2, "DANGEROUS", True],
              [None, "SUSPICIOUS", False]]
+        if self.wide:
+            r.append([1, "DANGEROUS", True, "alt"])
         if self.tier != "quick":
             r += [[2, "CRITICAL", True], [1, "SAFE", True]]
+            if self.wide:
+                r.append([None, "SUSPICIOUS", False, "alt"])
         return r
 
     def build(self, root):
         st = AState()
         st.root = tuple(root)
-        rate, th, adaptive = root
+        rate, th, adaptive = root[:3]
+        opts = root[3] if len(root) > 3 else "std"
         st.clock = vclock.VClock()
         vclock.use(st.clock)
-        st.mem = {"A": Membrane(threshold=ThreatLevel[th], enable_adaptive=adaptive, rate_limit=rate, silent=True),
+        kw = dict(silent=False, on_threat=_cb_true) if opts == "alt" else dict(silent=True)
+        st.mem = {"A": Membrane(threshold=ThreatLevel[th], enable_adaptive=adaptive, rate_limit=rate, **kw),
                   "B": Membrane(threshold=ThreatLevel.DANGEROUS, silent=True)}
         st.ref = {"A": RefMembrane(th, adaptive, rate), "B": RefMembrane("DANGEROUS", True, None)}
         st.last = ("init",)
@@ -1245,13 +1396,16 @@ class AModel:
         return c
 
     def ops(self, st):
-        o = [("filter", "A", i) for i in range(len(self.inputs))]
-        o += [("filter", "B", 3), ("filter", "B", 4)]
-        for pi in range(len(LEARNABLE)):
-            o += [("learn", "A", pi, "SUSPICIOUS"), ("learn", "A", pi, "CRITICAL"), ("forget", "A", pi)]
+        w = self.wide
+        o = [("filter", "A", i) for i in range(len(self.inputs)) if w or i != 7]
+        o += [("filter", "B", 3), ("filter", "B", 4)] + ([("filter", "B", 7)] if w else [])
+        o += [("learn", "A", pi, lv) for pi, lv in LEARN_OPS if w or pi < 2]
+        o += [("forget", "A", pi) for pi in FORGET_OPS if w or pi < 2]
         o += [("learn", "B", 1, "DANGEROUS"), ("learn", "B", 0, "CRITICAL")]
         if not st.ref["A"].custom:
             o.append(("add", "A", 0))
+        if w:
+            o += [("cfilter", "A", 0), ("cfilter", "A", 1)]   # clear_audit_log() immediately followed by filter
         o += [("threshold", "A", lv) for lv in LEVELS]
         o += [("xfer", "A", "B"), ("xfer", "B", "A")]
         if st.root[0] is not None:
@@ -1276,6 +1430,10 @@ class AModel:
         return repr(st.last)
 
     def step(self, st, op):
+        with quiet(st.root[3] if len(st.root) > 3 else "std"):
+            return self._step(st, op) + table_guard()
+
+    def _step(self, st, op):
         vclock.use(st.clock)
         kind = op[0]
         if kind == "advance":
@@ -1286,6 +1444,9 @@ class AModel:
         m, ref = st.mem[who], st.ref[who]
         try:
             if kind == "filter":
+                return self._filter(st, m, ref, self.inputs[op[2]])
+            if kind == "cfilter":
+                m.clear_audit_log()
                 return self._filter(st, m, ref, self.inputs[op[2]])
             if kind == "learn":
                 p, r = LEARNABLE[op[2]]
@@ -1319,7 +1480,7 @@ class AModel:
 
     def _filter(self, st, m, ref, x):
         n0 = len(m.get_audit_log())
-        res = m.filter(Signal(x))
+        res = m.filter(make_signal(x, st.root[3] if len(st.root) > 3 else "std"))
         now = st.clock.time()
         v = []
         log = m.get_audit_log()
@@ -1328,7 +1489,18 @@ class AModel:
                       f"audit trail grew by {len(log) - n0} (expected exactly 1) for one filter call"))
         elif log[-1].allowed != res.allowed or log[-1].audit_hash != res.audit_hash:
             v.append(("membrane:audit-entry-differs", "last audit entry is not the returned decision"))
-        shortcut = (not res.allowed) and res.threat_level.value == 3 and not res.matched_signatures
+        # role of this call, from the history of public calls only: a CRITICAL block without matched signatures is
+        # the replay-memory / rate-limit answer only if this input was blocked by a scan before or the window is full
+        # (calls that were not themselves rate-limited in (t-60, t] >= rate_limit); otherwise it is a scan decision
+        # and "threat level = max over matched" applies to it
+        window_full = False
+        if ref.rate_limit is not None:
+            ref.passed = [t for t in ref.passed if t > now - 60]
+            window_full = len(ref.passed) >= ref.rate_limit
+            if not window_full:
+                ref.passed.append(now)
+        may_shortcut = window_full or x in ref.blocked_before
+        shortcut = may_shortcut and (not res.allowed) and res.threat_level.value == 3 and not res.matched_signatures
         hits = [(s, o) for s, o in ref.active() if s.matches(x)]
         if res.allowed:
             for s, o in hits:
@@ -1370,7 +1542,7 @@ def a_selfcheck(model):
     """clone must be observationally equal to rebuilding by replay (a field added later cannot escape)"""
     hist = [("learn", "A", 1, "CRITICAL"), ("filter", "A", 4), ("add", "A", 0), ("advance", 59), ("filter", "A", 1),
             ("xfer", "A", "B"), ("filter", "B", 4), ("threshold", "A", "CRITICAL"), ("filter", "A", 5)]
-    for root in model.roots()[:3]:
+    for root in model.roots()[:3] + model.roots()[5:6]:
         a = model.build(root)
         for i, op in enumerate(hist):
             if op[0] == "advance" and root[0] is None:
@@ -1392,9 +1564,214 @@ def a_selfcheck(model):
 def run_a(ctx):
     model = AModel(ctx.tier)
     a_selfcheck(model)
-    depth = 5 if ctx.tier == "quick" else 7
-    res = explore.explore(model, ctx, depth, max_states=None if ctx.tier == "quick" else 1_500_000)
+    if ctx.tier == "quick":
+        res = explore.explore(model, ctx, 5)
+        res["base"] = None
+        return res
+    # thorough: the full alphabet to depth 6, and the core alphabet one level deeper
+    res = explore.explore(model, ctx, 6, max_states=1_500_000)
+    res["base"] = explore.explore(AModel(ctx.tier, wide=False), ctx, 7, max_states=1_500_000, label="Abase")
     return res
+
+
+# ======================================================================================
+# 7b. Engine A on the innate gate: check / add_pattern / add_validator / reset / clock histories
+# ======================================================================================
+
+I_GEN = [("Zq Hist-5", False, 5), (r"zq\s*hist2[0-9]+", True, 2)]
+I_VADD = [("json", 3, 64), ("length", 3, 40)]
+
+
+def i_inputs():
+    """benign text, witnesses of built-in patterns of three severities (case-perturbed / embedded / inside a JSON
+    document), witnesses of the two patterns that can be added, a control character, a tiny JSON document and a
+    two-character text (the added validators accept / reject them) - derived from the tables"""
+    b = builtin_innate()
+    s5 = next(p for p, r, sv in b if sv == 5 and not r)
+    s3 = next(p for p, r, sv in b if sv == 3 and not r)
+    r4 = next(p for p, r, sv in b if sv == 4 and r)
+    g1 = witnesses(I_GEN[1][0], True)[-1]
+    return ["hello world", f'["{s5.upper()}"]', f"{PREFIX}\n{s3}", witnesses(r4, True)[0].swapcase(),
+            f"say {I_GEN[0][0].lower()} ok", g1.upper() + "!", "note \x07 bell", "[1]", "hi"]
+
+
+class RefInnate:
+    """Reference state from the property text: threshold, added patterns, added validators. Nothing else: the
+    statement makes `allowed` a function of the input and the rule set, whatever was checked before."""
+
+    def __init__(self, threshold):
+        self.threshold = threshold
+        self.added = []     # indices into I_GEN
+        self.vadded = []    # indices into I_VADD
+
+    def copy(self):
+        c = RefInnate(self.threshold)
+        c.added, c.vadded = list(self.added), list(self.vadded)
+        return c
+
+    def active(self):
+        return [(s, "builtin") for s in ref_sigs("I")[0]] + [(_irefsig(i), "added") for i in self.added]
+
+    def vspec(self):
+        return DEFAULT_VSPEC + [I_VADD[i] for i in self.vadded]
+
+
+def _irefsig(i):
+    k = ("I", i)
+    if k not in _SIGCACHE:
+        _SIGCACHE[k] = RefSig(*I_GEN[i])
+    return _SIGCACHE[k]
+
+
+def clone_plain(obj):
+    """copy of a library object: fresh containers (one level; dataclass fields one level deeper)"""
+    t = copy.copy(obj)
+    for k, v in obj.__dict__.items():
+        if isinstance(v, list):
+            v = list(v)
+        elif isinstance(v, dict):
+            v = dict(v)
+        elif isinstance(v, set):
+            v = set(v)
+        elif dataclasses.is_dataclass(v) and not isinstance(v, type):
+            v = clone_plain(v)
+        t.__dict__[k] = v
+    return t
+
+
+class IState:
+    __slots__ = ("root", "clock", "gate", "ref", "last")
+
+
+class IModel:
+    def __init__(self, tier):
+        self.tier = tier
+        self.inputs = i_inputs()
+
+    def roots(self):
+        # [severity_threshold, inflammation_decay_minutes, option set]
+        r = [[3, 15, "std"], [1, 0, "alt"], [5, 15, "alt"], [6, 1, "std"]]
+        if self.tier != "quick":
+            r += [[2, 15, "std"], [4, 0, "std"], [3, 10 ** 6, "alt"], [0, 15, "std"], [100, 15, "std"]]
+        return r
+
+    def build(self, root):
+        st = IState()
+        st.root = tuple(root)
+        th, decay, opts = root
+        st.clock = vclock.VClock()
+        vclock.use(st.clock)
+        st.gate = {"A": InnateImmunity(**innate_kw(th, opts, decay)), "B": InnateImmunity(silent=True)}
+        st.ref = {"A": RefInnate(th), "B": RefInnate(3)}
+        st.last = ("init",)
+        return st
+
+    def clone(self, st):
+        c = IState()
+        c.root = st.root
+        c.clock = vclock.VClock()
+        c.clock._now = st.clock._now
+        c.clock._t0 = st.clock._t0
+        c.gate = {k: clone_plain(g) for k, g in st.gate.items()}
+        c.ref = {k: r.copy() for k, r in st.ref.items()}
+        c.last = st.last
+        return c
+
+    def ops(self, st):
+        o = [("check", "A", i) for i in range(len(self.inputs))]
+        o += [("check", "B", 1), ("check", "B", 4)]
+        o += [("addp", "A", i) for i in range(len(I_GEN)) if i not in st.ref["A"].added]
+        o += [("addv", "A", i) for i in range(len(I_VADD)) if i not in st.ref["A"].vadded]
+        o += [("reset", "A"), ("advance", 60), ("advance", 16 * 60)]
+        return o
+
+    def canon(self, st):
+        now = st.clock.now()
+        impl = []
+        for k in ("A", "B"):
+            g = st.gate[k]
+            s = g.inflammation_state
+            left = None if s.cooldown_until is None else max(0.0, (s.cooldown_until - now).total_seconds())
+            impl.append((
+                g.severity_threshold,
+                tuple((p.pattern, p.is_regex, p.severity) for p in g.patterns[len(InnateImmunity.DEFAULT_PATTERNS):]),
+                tuple((type(v).__name__, tuple(sorted(vars(v).items()))) for v in g.validators),
+                int(s.level), s.trigger_count, left, tuple(s.recent_alerts),
+            ))
+        return (tuple(impl), tuple((tuple(r.added), tuple(r.vadded)) for r in (st.ref["A"], st.ref["B"])))
+
+    def observe(self, st):
+        return repr(st.last)
+
+    def step(self, st, op):
+        with quiet(st.root[2]):
+            return self._step(st, op) + table_guard()
+
+    def _step(self, st, op):
+        vclock.use(st.clock)
+        kind = op[0]
+        if kind == "advance":
+            st.clock.advance(op[1])
+            st.last = ("advance",)
+            return []
+        g, ref = st.gate[op[1]], st.ref[op[1]]
+        try:
+            if kind == "check":
+                x = self.inputs[op[2]]
+                res = g.check(x)
+                hits = [(s, o) for s, o in ref.active() if s.matches(x)]
+                rej = ref_rejections_spec(x, ref.vspec())
+                st.last = ("check", res.allowed, len(res.matched_patterns), bool(res.structural_errors),
+                           int(res.inflammation.level))
+                return judge_innate(res, hits, rej, ref.threshold, ref.vspec(), x,
+                                    lambda one: next((o for s, o in ref.active() if s.ident == one), "unknown"))
+            if kind == "addp":
+                g.add_pattern(tlr(I_GEN[op[2]]))
+                ref.added.append(op[2])
+            elif kind == "addv":
+                g.add_validator(make_validators([I_VADD[op[2]]])[0])
+                ref.vadded.append(op[2])
+            elif kind == "reset":
+                g.reset_inflammation()
+            else:
+                raise AssertionError(op)
+        except AssertionError:
+            raise
+        except Exception as e:  # noqa: BLE001
+            return [(f"raises:{raise_site(e)}:{type(e).__name__}", f"{kind} raised {type(e).__name__}: {e}")]
+        st.last = (kind,)
+        return []
+
+
+def i_selfcheck(model):
+    hist = [("check", "A", 1), ("addp", "A", 0), ("check", "A", 4), ("advance", 60), ("addv", "A", 0),
+            ("check", "A", 7), ("check", "B", 1), ("reset", "A"), ("check", "A", 0)]
+    for root in model.roots()[:2]:
+        a = model.build(root)
+        for i, op in enumerate(hist):
+            model.step(a, op)
+            b = model.clone(a)
+            if model.canon(a) != model.canon(b):
+                raise common.HarnessError(f"innate clone differs from original after {hist[:i + 1]}")
+            r = explore.rebuild(model, list(root), hist[:i + 1])
+            if model.canon(a) != model.canon(r):
+                raise common.HarnessError(f"innate clone history differs from replay after {hist[:i + 1]}")
+            for probe in (("check", "A", 2), ("check", "A", 0), ("check", "B", 4)):
+                c1, c2 = model.clone(a), model.clone(b)
+                if model.step(c1, probe) != model.step(c2, probe) or c1.last != c2.last \
+                        or model.canon(c1) != model.canon(c2):
+                    raise common.HarnessError("innate clone not observationally equal to original")
+            if model.canon(a) != model.canon(b):
+                raise common.HarnessError("stepping a clone changed the original (shared mutable field)")
+        if set(vars(a.gate["A"])) != set(vars(model.clone(a).gate["A"])):
+            raise common.HarnessError("innate clone misses fields")
+
+
+def run_i(ctx):
+    model = IModel(ctx.tier)
+    i_selfcheck(model)
+    depth = 5 if ctx.tier == "quick" else 6
+    return explore.explore(model, ctx, depth, max_states=None if ctx.tier == "quick" else 1_500_000, label="I")
 
 
 # ======================================================================================
@@ -1405,39 +1782,68 @@ def run(ctx):
     sys.setrecursionlimit(max(sys.getrecursionlimit(), 1000))
     d = run_d(ctx)
     a = run_a(ctx)
-    execs = d["executions"] + a["transitions"]
+    ih = run_i(ctx)
+    ab = a["base"] or {"states": 0, "transitions": 0, "capped": False, "depth_completed": 0}
+    execs = d["executions"] + a["transitions"] + ih["transitions"] + ab["transitions"]
     ctx.coverage.update(
-        states=a["states"],
-        transitions=a["transitions"],
+        states=a["states"] + ih["states"],
+        transitions=a["transitions"] + ih["transitions"] + ab["transitions"],
         traces_validated_against_impl=execs,
         evaluations=execs,
-        distinct_nontrivial=d["nontrivial"] + a["states"],
+        distinct_nontrivial=d["nontrivial"] + a["states"] + ih["states"],
         rule="D: every signature of both gates (built-in tables read at run time + generated custom/learned/imported "
              "ones, substring and regex, every level/severity) -> witnesses from the re parse tree (each alternation "
              "branch, min and 2x repetitions) x perturbations (case variants incl. single flips, embedding with 3 "
              "separators, control chars, lone surrogates, 100k+ lengths) + hostile structural inputs; each run on a "
-             "fresh gate for every threshold x installation channel x validator set. distinct non-trivial D case = "
+             "fresh gate for every threshold x installation channel x validator set (incl. boundary-valued validator "
+             "options and add_validator), and again with every other constructor / signal option at a non-default "
+             "value ('alt') for two thresholds per gate. distinct non-trivial D case = "
              "distinct (gate, content) that matches >=1 signature or must be rejected by a validator. A: BFS over "
-             "membrane histories (2 membranes, virtual clock); distinct = canonical state",
-        exhaustive=not a["capped"],
+             "membrane histories (2 membranes, virtual clock) and BFS over innate-gate histories (2 gates: check / "
+             "add_pattern / add_validator / reset_inflammation / clock advance); distinct = canonical state",
+        exhaustive=not a["capped"] and not ih["capped"] and not ab["capped"],
+        a_core_alphabet_states=ab["states"],
+        a_core_alphabet_transitions=ab["transitions"],
+        a_core_alphabet_depth_completed=ab["depth_completed"],
         depth_completed=a["depth_completed"],
         fixpoint=a["fixpoint"],
         d_executions=d["executions"],
         d_inputs=d["items"],
         a_roots=a["roots"],
         a_inputs=AModel(ctx.tier).inputs,
+        a_states=a["states"],
+        a_transitions=a["transitions"],
+        i_roots=ih["roots"],
+        i_inputs=IModel(ctx.tier).inputs,
+        i_states=ih["states"],
+        i_transitions=ih["transitions"],
+        i_depth_completed=ih["depth_completed"],
+        option_sets=OPTS,
         thresholds=LEVELS,
         membrane_channels=M_CHANNELS,
         validator_sets=list(VSETS),
     )
+    caps = []
     if a["capped"]:
-        ctx.coverage["caps_hit"] = f"engine A stopped at {a['states']} states (depth {a['depth_completed']} complete)"
+        caps.append(f"engine A (membrane) stopped at {a['states']} states (depth {a['depth_completed']} complete)")
+    if ab["capped"]:
+        caps.append(f"engine A (membrane, core alphabet) stopped at {ab['states']} states "
+                    f"(depth {ab['depth_completed']} complete)")
+    if ih["capped"]:
+        caps.append(f"engine A (innate) stopped at {ih['states']} states (depth {ih['depth_completed']} complete)")
+    if caps:
+        ctx.coverage["caps_hit"] = "; ".join(caps)
     ctx.note("reading: replay-memory and rate-limit short-circuits report CRITICAL with no matched signature by "
              "design; 'threat level = max over matched' is asserted for scan decisions only")
     ctx.note("reading: 'at most rate_limit admitted per window' is asserted on allowed=True results in (t-60, t]; the "
              "stronger reading (requests passing the rate check, including ones the scan then blocks) is what the "
              "code implements and is not separately asserted")
-    ctx.note("reading: re-learning/importing a pattern replaces the earlier entry for the same pattern (latest level wins)")
+    ctx.note("reading: re-learning/importing a pattern replaces the earlier entry for the same pattern text (latest "
+             "level and regex-ness win); texts that differ only by case are different patterns")
+    ctx.note("reading: the innate gate may block more after earlier detections (inflammation); asserted is only that an "
+             "input the rule set blocks is blocked after every history, and the exact matched_patterns")
+    ctx.note("not asserted: callbacks that raise (on_threat / on_inflammation) - the statement quantifies over input "
+             "strings; callbacks answer a truthy value in the 'alt' configurations")
     ctx.note("not exercised: built-in regex <\\|.*\\|> is quadratic on '<|'*50000 (minutes); totality, not latency, is the claim")
     ctx.assumptions += [
         "characters whose case folding differs between str.lower() and re.IGNORECASE (U+017F, U+212A, U+0130, ...) are "
@@ -1450,7 +1856,16 @@ def run(ctx):
         "membrane; for the remaining combinations the scan's per-signature independence is relied on (built-ins are "
         "always active - the public constructor cannot remove them); the innate gate is run with built-ins only and "
         "with built-ins + all generated patterns",
-        "engine A: 7 inputs, 2 learnable patterns, 1 custom signature, advances {1,59,61} s, rate_limit in {None,0,1,2}",
+        "engine A (membrane), thorough tier: full alphabet to depth 6 plus the core alphabet (7 inputs, 2 learnable "
+        "patterns, default options) to depth 7; `states`/`distinct_nontrivial` count the full-alphabet run only (the "
+        "core-alphabet states are a subset up to depth 6), `transitions` counts both",
+        "engine A (membrane): 8 inputs, 4 learnable patterns (2 texts with both regex-nesses / a case twin), 1 custom "
+        "signature, advances {1,59,61} s, rate_limit in {None,0,1,2}, one root with console output + on_threat callback "
+        "+ non-default signal envelope",
+        "engine A (innate): 9 inputs, 2 addable patterns, 2 addable validators, advances {60, 960} s, "
+        "severity_threshold x inflammation_decay_minutes x option set per root; the second gate is never modified",
+        "'alt' option set: silent=False (stdout swallowed), callback installed (answers True), rate_limit=10**9, "
+        "inflammation_decay_minutes=0, Signal(source='System', INTERNAL, SATURATING, metadata, trace_id)",
     ]
 
 
@@ -1458,12 +1873,16 @@ def replay(ctx, case):
     if case.get("engine") == "D":
         spec = _unspec(case["spec"])
         if case["gate"] == "M":
-            v, out, _ = eval_membrane(case["threshold"], case["channel"], spec, subset=case.get("subset"))
+            v, out, _ = eval_membrane(case["threshold"], case["channel"], spec, subset=case.get("subset"),
+                                      opts=case.get("opts", "std"))
         else:
-            v, out, _ = eval_innate(case["threshold"], case["channel"], case.get("vset"), spec)
+            v, out, _ = eval_innate(case["threshold"], case["channel"], case.get("vset"), spec,
+                                    opts=case.get("opts", "std"))
         print("  outcome:", out)
         return v
-    return explore.replay_case(AModel(ctx.tier), case)
+    root = case["root"]
+    innate = len(root) == 3 and isinstance(root[2], str)
+    return explore.replay_case(IModel(ctx.tier) if innate else AModel(ctx.tier), case)
 
 
 def _unspec(spec):
